@@ -25,6 +25,12 @@ impl VarSet {
 //%% @spec
         ensures final(self).has(v), forall|w: VarLabel| w != v ==> #[trigger] final(self).has(w) == old(self).has(w),
 //%% end
+
+//%% extract src/repr/var_label.rs :: impl VarSet :: fn contains
+//%% @ret r
+//%% @spec
+        ensures r == self.has(v),
+//%% end
 }
 //%% include trusted/varset_ops.rs
 
